@@ -456,10 +456,11 @@ def process_unit(path, meta, update_mirror=False):
                 new_lines.insert(sig_idx, "#[verifier::external_body]")
                 log.add("STUB")
             merged, exact = merge(new_lines, ctx, ann)
-            start_line = len(out) + 2
-            out.append(l); out.extend(merged); out.append("//@@ end")
-            mirror_out.append(l); mirror_out.extend(merged); mirror_out.append("//@@ end")
             fid = "%s|%s|%s" % (file, norm_header(header) if wrap else "-", name)
+            emitted = add_canary(merged) if (fid in CANARY and mode == "body") else merged
+            start_line = len(out) + 2
+            out.append(l); out.extend(emitted); out.append("//@@ end")
+            mirror_out.append(l); mirror_out.extend(merged); mirror_out.append("//@@ end")
             meta["functions"].append({
                 "id": fid, "unit": unit, "mode": mode, "props": props,
                 "file": file, "src_line": item.src[:item.s].count("\n") + 1,
@@ -512,6 +513,20 @@ def process_unit(path, meta, update_mirror=False):
         new = "\n".join(mirror_out)
         if new != "\n".join(src_lines):
             open(path, "w").write(new)
+    return out
+
+CANARY = set()
+
+def add_canary(merged):
+    """vacuity canary: `assert(false)` as the first statement of the body (checks that the entry of the
+    function is reachable under its precondition; invisible to callers, unlike `ensures false`)"""
+    out = []
+    done = False
+    for l in merged:
+        out.append(l)
+        if l.strip() == "{" and not done:
+            out += ["//@+", "    assert(false); // vacuity canary", "//@-"]
+            done = True
     return out
 
 def contract_of(merged):
